@@ -34,6 +34,9 @@ def main():
         for sid, fired in ex.map(one, sids):
             mp = f"/verif/seeded/{sid}/meta.json"
             meta = json.load(open(mp))
+            if meta.get("obsolete"):
+                print(f"{sid}: obsolete ({meta['obsolete'].get('why', '')[:80]})")
+                continue
             if fired is None:
                 print(f"{sid}: patch no longer applies to the current tree (kept as recorded)")
                 continue
